@@ -58,10 +58,15 @@ theorem keeps_suggest (cfg : Cfg) (c : String) (n : Nat) (alg : AlgOutcome) : Ke
     · split
       · simp; rfl
       · rw [keeps_pythiaStage]; simp; rfl
+theorem keeps_esCompute (cfg : Cfg) (id : Nat) (es : EsOutcome) (st : Study) :
+    keyOf (esCompute cfg st id es).2 = keyOf st := by
+  simp only [esCompute]
+  repeat' split
+  all_goals simp
 theorem keeps_earlyStop (cfg : Cfg) (id : Nat) (es : EsOutcome) : KeepsKey fun st => earlyStopBody cfg st id es := by
   intro st; simp only [earlyStopBody]
   repeat' split
-  all_goals (try simp)
-  all_goals (try rfl)
+  all_goals (try rw [keeps_esCompute])
+  all_goals simp
 
 end VizierModel.Svc
